@@ -4,7 +4,12 @@ LEVEL_TEXT = ("K-obligations: ChaCha20/Salsa20/HChaCha20/HSalsa20 reference core
               "models for all keys/nonces/counters/messages (CBMC + cvc5 word-level); counter progression and split "
               "consistency; G-obligations: the real stream API glue over idealised block functions; IETF counter guard for "
               "all 64-bit lengths. SIMD back ends: E2 (irsym) equivalence with the reference unit.")
-TRUSTED = ["CBMC 6.11 + cvc5 1.0 bit-vector semantics", "spec models in models/ (validated against RFC test vectors by bin/setup)",
+LEVEL_TEXT += (" End to end (E2 irsym): every public stream form -- crypto_stream_{chacha20,chacha20_ietf,xchacha20,salsa20,xsalsa20,salsa2012,salsa208}"
+               "[_xor[_ic]] through the real dispatcher and reference back ends -- is executed on its LLVM IR with key, nonce, 64-bit initial counter and message "
+               "ALL symbolic and compared bit for bit with a specification model (RFC 8439, draft-irtf-cfrg-xchacha, Bernstein's Salsa20/XSalsa20) "
+               "over one shared graph; counter carries across 2^32 are inside the symbolic counter.")
+E2_EQUIV = ["stream-ref-spec"]
+TRUSTED = ["CBMC 6.11 + cvc5 1.0 bit-vector semantics", "irsym LLVM-IR interpreter; stream spec models validated against RFC 8439 2.3.2 and native libsodium outputs during development", "spec models in models/ (validated against RFC test vectors by bin/setup)",
            "composition: per-block correctness + counter progression + split consistency => keystream bytes [64i, 64i+64) = Block(key, nonce, ic+i)"]
 ASSUMPTIONS = ["lengths in the enumerated sets"]
 OUTSIDE = ["salsa20_xmm6-asm.S (hand-written assembly: no encoder)", "lengths beyond the stated bounds"]
